@@ -8,6 +8,7 @@ import (
 	"github.com/btcsuite/btcd/btcutil/hdkeychain"
 	"github.com/btcsuite/btcd/chaincfg"
 	"github.com/elnosh/gonuts/cashu"
+	"github.com/elnosh/gonuts/cashu/nuts/nut02"
 	"github.com/elnosh/gonuts/cashu/nuts/nut04"
 	"github.com/elnosh/gonuts/cashu/nuts/nut05"
 	"github.com/elnosh/gonuts/crypto"
@@ -208,7 +209,10 @@ func vhCrashRotate(fault bool) {
 	env.m.keysets = map[string]crypto.MintKeyset{ks0.Id: *ks0}
 	env.m.activeKeyset = ks0
 	v.Assume(env.db.SaveKeyset(storage.DBKeyset{Id: ks0.Id, Unit: "sat", Active: true, Seed: hex.EncodeToString(seed), DerivationPathIdx: 0, InputFeePpk: ks0.InputFeePpk}) == nil)
-	hit := env.strike(fault, func() { env.m.RotateKeyset(uint(v.U64("newfee") % 4096)) })
+	newfee := uint(v.U64("newfee") % 4096)
+	var rotated *nut02.Keyset
+	var rerr error
+	hit := env.strike(fault, func() { rotated, rerr = env.m.RotateKeyset(newfee) })
 	if hit {
 		v.Reach("struck")
 	} else {
@@ -229,6 +233,16 @@ func vhCrashRotate(fault bool) {
 	v.Reach(fmt.Sprintf("rows=%d active=%d hit=%v", len(rows), active, hit))
 	v.Assert(active == 1, "C07 S3 rotation: exactly one keyset is active in the database after a crash / fault at any point")
 	v.Assert(old, "C07 S3 rotation: the previous keyset is still stored with its id and index")
+	// what a restart rebuilds from the database is what the mint served: every stored row carries the fee, index and
+	// active flag of the keyset it stands for (LoadMint derives the keys from seed + index and takes the rest from the row)
+	for _, r := range rows {
+		if r.Id == ks0.Id {
+			v.Assert(r.InputFeePpk == ks0.InputFeePpk, "C07 rotation: the previous keyset keeps its input fee in the database")
+		}
+		if rotated != nil && rerr == nil && r.Id == rotated.Id {
+			v.Assert(v.And(r.InputFeePpk == newfee, r.Active, r.DerivationPathIdx == 1), "C07 rotation: the keyset a completed rotation returned is stored with the fee, index and active flag it was announced with (a restart rebuilds the same keyset)")
+		}
+	}
 }
 
 func VHarnessCrashRotate() { vhCrashRotate(false) }
